@@ -63,6 +63,16 @@ def worker_init(backend):
     from pendulum.duration import AbsoluteDuration
     from pendulum.tz.timezone import FixedTimezone, Timezone
     _P.update(p=pendulum, A=AbsoluteDuration, F=FixedTimezone, T=Timezone)
+    # user-defined subclasses (module-level names so that pickle can find them): "an object of the same type" must hold for them too
+    g = globals()
+    for base in (pendulum.DateTime, pendulum.Date, pendulum.Time, pendulum.Duration, AbsoluteDuration, pendulum.Interval):
+        name = "Sub" + base.__name__
+        g[name] = type(name, (base,), {"__module__": __name__, "__qualname__": name})
+        _P[("sub", base.__name__)] = g[name]
+
+
+def _cls(base, sub):
+    return _P[("sub", base.__name__)] if sub else base
 
 
 # ----------------------------------------------------------------------------- tz references
@@ -237,16 +247,22 @@ def _acc_time(t):
 
 # ----------------------------------------------------------------------------- building values
 
-def _build(op):
+def _use_sub(op):
+    """every fourth op (by a checksum of the op) runs on an instance of a user-defined subclass of the pendulum class"""
+    import zlib
+    return op[0] != "tz" and zlib.crc32(("sub" + repr(op)).encode()) % 4 == 0
+
+
+def _build(op, sub=False):
     """(value, accessor function, needs ==)"""
     p = _P["p"]
     k = op[0]
     if k == "dt":
         _, way, ref, w, fold = op
-        return p.DateTime(*D.fields(w), tzinfo=_mk_tz(ref), fold=fold), _acc_dt, True
+        return _cls(p.DateTime, sub)(*D.fields(w), tzinfo=_mk_tz(ref), fold=fold), _acc_dt, True
     if k == "dur":
         _, way, cls, y, mo, wk, d, h, mi, s, ms, us = op
-        klass = p.Duration if cls == "D" else _P["A"]
+        klass = _cls(p.Duration if cls == "D" else _P["A"], sub)
         return klass(days=d, seconds=s, microseconds=us, milliseconds=ms, minutes=mi, hours=h, weeks=wk, years=y, months=mo), _acc_dur, True
     if k == "iv":
         _, way, share, ra, wa, fa, rb, wb, fb, ab, isdate = op
@@ -257,14 +273,14 @@ def _build(op):
             cache = {} if share else None
             a = p.DateTime(*D.fields(wa), tzinfo=_mk_tz(ra, cache), fold=fa)
             b = p.DateTime(*D.fields(wb), tzinfo=_mk_tz(rb, cache), fold=fb)
-        return p.Interval(a, b, absolute=bool(ab)), _acc_iv, True
+        return _cls(p.Interval, sub)(a, b, absolute=bool(ab)), _acc_iv, True
     if k == "time":
         _, way, tod, ref, fold = op
         f = D.fields(tod)
-        return p.Time(f[3], f[4], f[5], f[6], tzinfo=_mk_tz(ref), fold=fold), _acc_time, True
+        return _cls(p.Time, sub)(f[3], f[4], f[5], f[6], tzinfo=_mk_tz(ref), fold=fold), _acc_time, True
     if k == "date":
         _, way, y, m, d = op
-        return p.Date(y, m, d), _acc_date, True
+        return _cls(p.Date, sub)(y, m, d), _acc_date, True
     if k == "tz":
         return _mk_tz(op[2]), _acc_tz, False
     raise ValueError(k)
@@ -318,7 +334,7 @@ def impl(op, backend):
     accessors were already read: a deterministic function of the op decides whether the accessors are touched first and
     whether a second copy step (deepcopy / pickle / copy) is chained after the first one."""
     import zlib
-    v, _, _ = _build(op)
+    v, _, _ = _build(op, _use_sub(op))
     h = zlib.crc32(repr(op).encode())
     if h % 3 == 0:
         try:
